@@ -235,6 +235,17 @@ fn app_options(resp: &mut CoapResponse, optset: u8) {
             resp.message.add_option(CoapOption::LocationPath, b"some-location".to_vec());
             resp.message.add_option(CoapOption::from(2049), vec![1, 2, 3]);
         }
+        // options with a meaning of their own to block-wise transfer or to observation: they are the
+        // application's all the same and go on every block
+        4 => {
+            resp.message.add_option(CoapOption::ETag, vec![0xE4]);
+            resp.message.add_option(CoapOption::Observe, vec![0x12, 0x34]);
+        }
+        5 => {
+            resp.message.add_option(CoapOption::Observe, vec![]);
+            resp.message.add_option(CoapOption::MaxAge, vec![0]);
+            resp.message.add_option(CoapOption::Size2, vec![0x4E, 0x20]);
+        }
         _ => {}
     }
 }
@@ -370,6 +381,9 @@ pub struct Ul {
     pub segs: Vec<Vec<u8>>,
     pub follow: bool,          // follow the server's (possibly smaller) block size
     pub grow: usize,           // from the second block on the request carries an extra option of this many bytes
+    pub reply_len: usize,      // body of the application's reply to the final block (a large one leaves as Block2 blocks)
+    pub reply_optset: u8,      // options the application puts on that reply
+    pub b2hint: Option<u8>,    // the final block also names a Block2 size
 }
 
 pub fn upload(out: &mut Out, start: Instant, u: &Ul, r: &mut Rng, xid: u64) {
@@ -410,7 +424,8 @@ pub fn upload(out: &mut Out, start: Instant, u: &Ul, r: &mut Rng, xid: u64) {
             mid = mid.wrapping_add(1);
             let tl = if r.chance(1, 3) { r.below(u.toklen as u64 + 1) as usize } else { u.toklen };
             let extra = if u.grow > 0 && k > 0 { vec![(15u16, vec![b'q'; u.grow])] } else { vec![] };
-            let pkt = mkreq(&ReqSpec { code: 3, typ: 0, mid, tok: r.bytes(tl), segs: &u.segs, b1: Some((num as u16, more, cur_szx)), b2: None, pay: chunk.clone(), extra });
+            let b2 = if more { None } else { u.b2hint.map(|s| (0u16, false, s)) };
+            let pkt = mkreq(&ReqSpec { code: 3, typ: 0, mid, tok: r.bytes(tl), segs: &u.segs, b1: Some((num as u16, more, cur_szx)), b2, pay: chunk.clone(), extra });
             let (o, mut req) = h.ireq(out, ep, &pkt, &tag);
             if o["k"] != "ok" {
                 aborted = "intercept_request failed";
@@ -421,6 +436,8 @@ pub fn upload(out: &mut Out, start: Instant, u: &Ul, r: &mut Rng, xid: u64) {
                 delivered.push(jbytes(&req.message.payload));
                 if let Some(resp) = req.response.as_mut() {
                     resp.message.header.code = 0x44.into();
+                    app_options(resp, u.reply_optset);
+                    resp.message.payload = body_bytes(u.reply_len, 40 + xid as usize);
                 }
                 let _ = h.iresp(out, ep, &mut req, &tag);
             }
@@ -481,7 +498,7 @@ pub fn rec_block2(args: &Args) {
             3 => r.below(if thorough { 20000 } else { 3000 }) as usize,
             _ => r.below(200) as usize,
         };
-        let mut d = Dl { body_len, m: 1152, first_szx: szx_pick, reduce: None, optset: r.below(4) as u8, toklen: r.below(9) as usize, segs: r.pick(&segs).clone(), typ: r.below(2), prior: 0 };
+        let mut d = Dl { body_len, m: 1152, first_szx: szx_pick, reduce: None, optset: r.below(6) as u8, toklen: r.below(9) as usize, segs: r.pick(&segs).clone(), typ: r.below(2), prior: 0 };
         if r.chance(1, 4) {
             d.reduce = Some((r.range(1, 3) as usize, r.below(4) as u8));
         }
@@ -540,7 +557,7 @@ pub fn rec_block1(args: &Args) {
         let m = match r.below(3) { 0 => 1280usize.max(ov + 12 + bs), 1 => ov + 12 + bs + r.below(40) as usize, _ => (ov + 12 + bs).max(1152) };
         let dups: Vec<usize> = match r.below(4) { 0 => vec![1], 1 => vec![2], 2 => vec![1, 3, 1, 2], _ => vec![3, 1] };
         let abandoned = if r.chance(1, 2) { r.below(7) as usize } else { 0 };
-        let u = Ul { body_len, szx, m, dups, abandoned, abandoned_len: bs * 7 + 5, toklen, segs: sg, follow: false, grow: 0 };
+        let u = Ul { body_len, szx, m, dups, abandoned, abandoned_len: bs * 7 + 5, toklen, segs: sg, follow: false, grow: 0, reply_len: match r.below(3) { 0 => 0, 1 => r.below(20) as usize, _ => m + r.below(300) as usize }, reply_optset: r.below(6) as u8, b2hint: if r.chance(1, 4) { Some(r.below(7) as u8) } else { None } };
         xid += 1;
         upload(&mut out, start, &u, &mut r, xid);
     }
@@ -573,7 +590,7 @@ pub fn rec_budget(args: &Args) {
     let mut xid = 0u64;
     let rounds = if thorough { 12 } else { 1 };
     for _ in 0..rounds {
-        for optset in 0..4u8 {
+        for optset in 0..6u8 {
             let toklen = r.below(9) as usize;
             let sg = r.pick(&segs).clone();
             let base = Dl { body_len: 0, m: 0, first_szx: None, reduce: None, optset, toklen, segs: sg.clone(), typ: 0, prior: 0 };
@@ -614,14 +631,14 @@ pub fn rec_budget(args: &Args) {
                 let ov = probe.to_bytes_unlimited().unwrap().len();
                 let bs = 16usize << szx.min(6);
                 let m = match r.below(4) { 0 => ov + 28, 1 => ov + 12 + bs + r.below(3) as usize, 2 => ov + 12 + bs + 31 + r.below(3) as usize, _ => r.range(ov as u64 + 28, 1280) as usize }.min(1280).max(ov + 28);
-                let u = Ul { body_len: (3 * bs + 5).min(2500), szx, m, dups: vec![1], abandoned: 0, abandoned_len: 0, toklen, segs: sg.clone(), follow: true, grow: 0 };
+                let u = Ul { body_len: (3 * bs + 5).min(2500), szx, m, dups: vec![1], abandoned: 0, abandoned_len: 0, toklen, segs: sg.clone(), follow: true, grow: 0, reply_len: 0, reply_optset: 0, b2hint: None };
                 xid += 1;
                 upload(&mut out, start, &u, &mut r, xid);
                 // the overhead grows in the middle of the upload (an extra option from the second block on)
                 // while the budget only just admitted the first block: later acknowledgements must shrink
                 let grow = *r.pick(&[13usize, 24, 40]);
                 let m2 = (ov + 12 + bs + r.below(12) as usize).min(1280).max(ov + grow + 28);
-                let u = Ul { body_len: (3 * bs + 5).min(2500), szx: szx.min(6), m: m2, dups: vec![1], abandoned: 0, abandoned_len: 0, toklen, segs: sg.clone(), follow: true, grow };
+                let u = Ul { body_len: (3 * bs + 5).min(2500), szx: szx.min(6), m: m2, dups: vec![1], abandoned: 0, abandoned_len: 0, toklen, segs: sg.clone(), follow: true, grow, reply_len: 0, reply_optset: 0, b2hint: None };
                 xid += 1;
                 upload(&mut out, start, &u, &mut r, xid);
                 // an abandoned upload left a buffer; a client resumes at a non-zero block with a size the budget does not admit
@@ -712,7 +729,35 @@ pub fn rec_hostile(args: &Args) {
     for _ in 0..n {
         let m = match r.below(6) { 0 => r.below(65) as usize, 1 => 1152, 2 => r.below(5001) as usize, 3 => *r.pick(&[0usize, 19, 20, 21, 22, 32]), 4 => 1280, _ => r.range(16, 80) as usize };
         let mut h = H::new(&mut out, m, 3_600_000, start);
+        // half of the sessions start from state: an upload in progress on the key most hostile requests
+        // use, then follow-ups aimed at the buffered range whose payload length ignores the declared size
+        let staged = r.chance(1, 2);
+        let mut staged_blocks = 0u16;
+        let pszx = r.below(4) as u8;
+        if staged {
+            staged_blocks = r.range(1, 3) as u16;
+            for k in 0..staged_blocks {
+                let pkt = mkreq(&ReqSpec { code: 3, typ: 0, mid: k, tok: vec![7], segs: &[b"up".to_vec()], b1: Some((k, true, pszx)), b2: None, pay: body_bytes(1usize << (pszx + 4), 6), extra: vec![] });
+                let _ = h.ireq(&mut out, "h1", &pkt, &json!({"kind": "staged-prefix"}));
+            }
+        }
         for _ in 0..r.range(1, 6) {
+            if staged && r.chance(1, 2) {
+                let szx = r.below(8) as u8;
+                let size = 1usize << (szx + 4);
+                let buffered = (staged_blocks as usize) << (pszx + 4);
+                let num = match r.below(4) { 0 => r.below(staged_blocks as u64 + 2) as u16, 1 => (buffered / size) as u16, 2 => (buffered / size).saturating_sub(1) as u16, _ => r.below(6) as u16 };
+                let pl = *r.pick(&[0usize, 1, size - 1, size, size + 1, size + 17, 2 * size, 1200]);
+                let pkt = mkreq(&ReqSpec { code: 3, typ: r.below(2), mid: r.next() as u16, tok: vec![7], segs: &[b"up".to_vec()], b1: Some((num, r.chance(2, 3), szx)), b2: None, pay: body_bytes(pl.min(1300), 8), extra: vec![] });
+                let (o, mut req) = h.ireq(&mut out, "h1", &pkt, &json!({"kind": "staged"}));
+                if o["k"] == "ok" && o["handled"] == false {
+                    if let Some(resp) = req.response.as_mut() {
+                        hostile_reply(&mut r, resp);
+                    }
+                    let _ = h.iresp(&mut out, "h1", &mut req, &json!({"kind": "staged"}));
+                }
+                continue;
+            }
             let (pkt, kind) = hostile_request(&mut r, m);
             let ep = *r.pick(&["h1", "h1", "h2"]);
             let (o, mut req) = h.ireq(&mut out, ep, &pkt, &json!({"kind": kind}));
@@ -738,6 +783,31 @@ pub fn rec_hostile(args: &Args) {
                         resp.message.payload = body_bytes(40, 1);
                     }
                     let _ = h.iresp(&mut out, "h1", &mut req, &json!({"kind": "room"}));
+                }
+            }
+        }
+    }
+    // directed: a buffered prefix, then one block whose declared range lies inside / across / beyond the
+    // buffer and whose payload is shorter than, equal to or longer than the declared size
+    for pszx in [0u8, 2] {
+        let psize = 1usize << (pszx + 4);
+        for prefix in [1usize, 3] {
+            for szx in [0u8, 1, 2, 6] {
+                let size = 1usize << (szx + 4);
+                for num in [0u16, 1, 2, 3, 5, 12] {
+                    for pl in [0usize, 1, size - 1, size, size + 1, size + 17, 1200] {
+                        let more = (num as usize + pl) % 2 == 0;
+                        let mut h = H::new(&mut out, 4000, 3_600_000, start);
+                        for k in 0..prefix {
+                            let pkt = mkreq(&ReqSpec { code: 3, typ: 0, mid: k as u16, tok: vec![9], segs: &[b"up".to_vec()], b1: Some((k as u16, true, pszx)), b2: None, pay: body_bytes(psize, 2), extra: vec![] });
+                            let _ = h.ireq(&mut out, "h1", &pkt, &json!({"kind": "overlap-prefix"}));
+                        }
+                        let pkt = mkreq(&ReqSpec { code: 3, typ: 0, mid: 50, tok: vec![9], segs: &[b"up".to_vec()], b1: Some((num, more, szx)), b2: None, pay: body_bytes(pl, 4), extra: vec![] });
+                        let (o, mut req) = h.ireq(&mut out, "h1", &pkt, &json!({"kind": "overlap"}));
+                        if o["k"] == "ok" && o["handled"] == false {
+                            let _ = h.iresp(&mut out, "h1", &mut req, &json!({"kind": "overlap"}));
+                        }
+                    }
                 }
             }
         }
@@ -896,8 +966,19 @@ pub fn rec_isolation(args: &Args) {
     let ab = vec![b"a".to_vec(), b"b".to_vec()];
     let a_b = vec![b"a/b".to_vec()];
     let a = vec![b"a".to_vec()];
+    // paths that differ only by what a normalisation would fold: trailing / leading empty segment, case,
+    // an undecodable segment next to its lossy rendering
+    let a_ = vec![b"a".to_vec(), vec![]];
+    let _a = vec![vec![], b"a".to_vec()];
+    let upper = vec![b"A".to_vec()];
+    let raw = vec![vec![0xFF]];
+    let lossy = vec!["\u{FFFD}".as_bytes().to_vec()];
     // pairs of keys that differ in exactly one of endpoint / method / path
     let keysets: Vec<Vec<(&str, u8, Vec<Vec<u8>>)>> = vec![
+        vec![("e1", 1, a.clone()), ("e1", 1, a_.clone())],
+        vec![("e1", 3, a_.clone()), ("e1", 3, a.clone()), ("e1", 3, _a.clone())],
+        vec![("e1", 1, a.clone()), ("e1", 1, upper.clone())],
+        vec![("e1", 3, raw.clone()), ("e1", 3, lossy.clone())],
         vec![("e1", 3, ab.clone()), ("e2", 3, ab.clone())],
         vec![("e1", 3, ab.clone()), ("e1", 2, ab.clone())],
         vec![("e1", 1, ab.clone()), ("e1", 1, a_b.clone())],
